@@ -289,7 +289,7 @@ func (x *Exec) appendOp(st *State, s, t Value, resT types.Type) Value {
 		srcS := c.Select(h, sb)
 		srcT := c.Select(h, tb)
 		var inPlace, moved *Term
-		if tn.IsLit() && tn.Val.Int64() <= 8 {
+		if tn.IsLit() && (tn.Val.Int64() <= 8 || x.Opt.Paths && tn.Val.Int64() <= 512) {
 			inPlace = srcS
 			if x.Opt.Paths && sn.IsLit() && so.IsLit() && sn.Val.Int64() <= 1024 {
 				// concrete shape (path mode): the reallocated array is written out element by element,
@@ -342,7 +342,7 @@ func (x *Exec) copyOp(st *State, d, s Value, resT types.Type) Value {
 		src := c.Select(h, sb)
 		dst := c.Select(h, db)
 		var nd *Term
-		if n.IsLit() && n.Val.Int64() <= 8 {
+		if n.IsLit() && (n.Val.Int64() <= 8 || x.Opt.Paths && n.Val.Int64() <= 512) {
 			nd = dst
 			for e := int64(0); e < n.Val.Int64(); e++ {
 				nd = c.Store(nd, c.BVBin("bvadd", do, c.BVI(e, 64)), c.Select(src, c.BVBin("bvadd", so, c.BVI(e, 64))))
@@ -363,6 +363,19 @@ func (x *Exec) copyOp(st *State, d, s Value, resT types.Type) Value {
 func (x *Exec) intrinsic(fr *frame, st *State, q string, callee *ssa.Function, args []Value, resT types.Type, pos token.Pos) (Value, bool) {
 	c := x.C
 	switch q {
+	case "sync/atomic.AddUint64", "sync/atomic.AddUint32", "sync/atomic.AddInt64", "sync/atomic.AddInt32":
+		// sequential semantics: *addr += delta, returns the new value (no concurrency is modelled)
+		if len(args) == 2 {
+			pt := args[0].T.Underlying().(*types.Pointer)
+			old := x.Load(st, args[0], pt.Elem())
+			d := args[1]
+			d.T = pt.Elem()
+			nv := x.binop(st, token.ADD, old, d, pt.Elem(), pos)
+			nv.T = pt.Elem()
+			x.StoreVal(st, args[0], nv)
+			x.Notes.Assumed[q+": sequential semantics (*addr += delta); interleavings are not modelled"] = true
+			return nv, true
+		}
 	case "sort.Search":
 		// Assumed contract of sort.Search(n, f) (the postcondition of binary search, valid for every
 		// deterministic side-effect free predicate): the result r satisfies 0 <= r <= n,
